@@ -347,32 +347,37 @@ impl Stat {
     }
 }
 
-/// at most this many violations per block of inputs are recorded individually; the rest are only counted
+/// at most this many violations per clause and block of inputs are recorded individually; the rest are only counted
 const PER_BLOCK: usize = 16;
 
 fn run_block(op: Op, palname: &str, env: &Env, inputs: impl Iterator<Item = u32>, col: &Collector) -> Stat {
     let keep = !matches!(op, Op::ColorRgbToRgb);
     let mut st = Stat::default();
-    let mut recorded = 0usize;
-    let mut counted: Vec<(&'static str, u64)> = vec![];
+    // per clause: (seen, recorded)
+    let mut seen: Vec<(&'static str, u64, u64)> = vec![];
     for v in inputs {
-        match eval(op, env, v, recorded < PER_BLOCK) {
+        match eval(op, env, v, false) {
             Ok(i) => st.add(i, keep),
-            Err((clause, msg)) => {
+            Err((clause, _)) => {
                 st.evals += 1;
-                if recorded < PER_BLOCK {
-                    recorded += 1;
+                let i = match seen.iter().position(|(c, _, _)| *c == clause) {
+                    Some(i) => i,
+                    None => {
+                        seen.push((clause, 0, 0));
+                        seen.len() - 1
+                    }
+                };
+                seen[i].1 += 1;
+                if (seen[i].2 as usize) < PER_BLOCK {
+                    seen[i].2 += 1;
+                    let msg = eval(op, env, v, true).err().map(|(_, m)| m).unwrap_or_default();
                     col.push(finding(op, palname, env.pal, v, clause, msg));
-                } else if let Some(e) = counted.iter_mut().find(|(c, _)| *c == clause) {
-                    e.1 += 1;
-                } else {
-                    counted.push((clause, 1));
                 }
             }
         }
     }
-    for (clause, n) in counted {
-        col.add_count(op.name(), clause, n);
+    for (clause, n, recorded) in seen {
+        col.add_count(op.name(), clause, n - recorded);
     }
     st
 }
